@@ -533,6 +533,10 @@ impl Loader<TWideC> for TWideCLoader {
         let content: &[u8] = if content.starts_with(b"s") {
             std::thread::sleep(std::time::Duration::from_millis(1600));
             &content[1..]
+        } else if content.starts_with(b"m") {
+            // "m<n>": a loader that takes a while (300 ms)
+            std::thread::sleep(std::time::Duration::from_millis(300));
+            &content[1..]
         } else {
             &content
         };
